@@ -143,8 +143,19 @@ let dec_case (w : string list) : string =
   Printf.sprintf "%s info=%s text=%s llil=%s emu=%s" dpart (show_cres false (dec_info bs)) (show_cres true (dec_text bs))
     (show_cres false (dec_llil bs)) emu
 
+(* ---- LCD ------------------------------------------------------------------------------ *)
+let parse_lop (s : string) : lop =
+  match split_on ':' s with
+  | ["w"; a; v] -> LWrite (n_of_int (ios a), n_of_int (ios v))
+  | ["r"; a] -> LRead (n_of_int (ios a))
+  | ["st"] -> LState
+  | ["px"] -> LPixels
+  | _ -> failwith ("bad lcd op " ^ s)
+
 let handle (w : string list) : string =
   match w with
+  | "lcd_py" :: ops -> show_nll (lcd_py_run (List.map parse_lop ops))
+  | "lcd_rs" :: ops -> show_nll (lcd_rs_run (List.map parse_lop ops))
   | "dec" :: rest -> dec_case rest
   | "regs_py" :: ops -> show_nll (regs_py_run (List.map parse_rop ops))
   | "regs_rs" :: ops -> show_nll (regs_rs_run (List.map parse_rop ops))
